@@ -19,7 +19,7 @@ claimed = {
    technique='deterministic simulation: seeded fault plan (panic at every point) over a universal call tree + native twin, event-by-event'),
  'C12': dict(level='fault_enumeration', design='3.4',
    text='Enumerated crash points: for each probe program a panic is injected before every executed statement (statement seam) and inside every compiled-function call, through every public entry path (Eval, Compile+RunExpr, ParseEvalPrint, DebugExpr) with debugger / trap-panic options varied, every compiled-call point repeated with a nested evaluation that panics and is recovered by the compiled function (the outer evaluation must finish undisturbed), every third point (thorough: every point) repeated with an interrupt requested at the instant of the panic, plus pairs where the second panic lands while the first is being handled (thorough). After the aborted evaluation a fixed battery (defer order, recover in/outside defers, re-panic, named results, closures over globals, a goroutine, loops, recursion, a debug-stepped call with recorded stops, a direct call of an interpreted function value with a breakpoint) must give exactly what a fresh interpreter gives.',
-   note='The fault space is enumerated exhaustively for the 9 fixed probe programs only; other programs are not covered. Trusted: the fresh interpreter as reference. Side effects of aborted code are excluded by construction of the battery.',
+   note='The fault space is enumerated exhaustively for the 11 fixed probe programs only; other programs are not covered. Trusted: the fresh interpreter as reference. Side effects of aborted code are excluded by construction of the battery.',
    technique='deterministic simulation: exhaustive single (and paired) panic-point enumeration through the statement seam + battery vs fresh interpreter'),
  'C13': dict(level='fault_enumeration', design='3.5',
    text='Enumerated interrupt delivery points: for 8 loop shapes Interp.Interrupt is delivered before every executed statement (from the evaluating goroutine, from another goroutine, doubled, from inside a compiled call, with Ctrl+C-enters-debugger, between evaluations). The executor must take the interrupt within 64 executed statements (else the seam aborts the run and reports it), the evaluation must end with the interrupt panic (or enter the debugger), the next evaluation must not see a stale flag, and the C12 battery must equal a fresh interpreter.',
